@@ -62,7 +62,6 @@ static Lab *build_lab(const LabKey &k)
 {
 	auto it = lab_cache.find(k);
 	if (it != lab_cache.end()) return it->second.get();
-	if (lab_cache.size() > 48) lab_cache.clear();
 	std::unique_ptr<Lab> L(new Lab);
 	L->key = k;
 	L->si = wt::suite_by_id(k.suite);
@@ -322,10 +321,10 @@ static void run_fault(Lab *L, unsigned fclass, size_t ri, unsigned chunk_mode, u
 		break;
 	}
 	case F_SPLICE: {
-		LabKey k2 = L->key;
-		k2.variant = L->key.variant + 1;
+		LabKey k1 = L->key, k2 = L->key;     // by value: building a lab may clear the cache and free *L
+		k2.variant = k1.variant + 1;
 		Lab *L2 = build_lab(k2);
-		Lab *L1 = build_lab(L->key);   // (map may have been cleared)
+		Lab *L1 = build_lab(k1);   // (map may have been cleared)
 		L = L1;
 		if (ri >= L2->stream.size()) ri = 0;
 		Bytes w = join(L->stream, 0, ri), r = L2->stream[ri].raw(), post = join(L->stream, ri + 1);
@@ -509,6 +508,8 @@ void target_run(Tape &t)
 	size_t ri = t.u8();
 	unsigned chunk_mode = t.u8();
 	unsigned sub = t.u8();
+	// bound the cache here, where no pointer into it is alive (a case builds at most two labs)
+	if (lab_cache.size() > 48) lab_cache.clear();
 	Lab *L = build_lab(k);
 	run_fault(L, fclass, ri, chunk_mode, sub);
 	stats.cls(std::string("fault:") + FNAME[fclass]);
